@@ -273,7 +273,7 @@ func runHistory(h *historyT, drv *hx.Driver, st *stepStats, fpCheck bool) (*divT
 							return
 						}
 					}
-					if fpCheck && key != "" && drv != nil {
+					if fpCheck && keyMode == "fnv" && key != "" && drv != nil {
 						if req, ok := fpRequest(nd, opn); ok {
 							var fr struct {
 								Fp    string `json:"fp"`
@@ -402,7 +402,7 @@ func runHistory(h *historyT, drv *hx.Driver, st *stepStats, fpCheck bool) (*divT
 		keysMode = "final"
 	}
 	var m modelResp
-	req := map[string]interface{}{"mode": mode, "cfg": map[string]interface{}{"maxEntries": h.MaxEntries, "maxBytes": h.MaxBytes, "nil": h.Nil},
+	req := map[string]interface{}{"mode": mode, "cfg": map[string]interface{}{"maxEntries": h.MaxEntries, "maxBytes": h.MaxBytes, "nil": h.Nil, "keyShape": keyShape},
 		"pool": h.Pool, "ops": mops, "keys": keysMode}
 	if err := drv.Ask(req, &m); err != nil {
 		return nil, err
@@ -525,8 +525,9 @@ var schemaDescJSON = func() interface{} {
 }()
 
 type normModelResp struct {
-	Out     string                 `json:"out"`
-	Printed string                 `json:"printed"`
+	Out        string                 `json:"out"`
+	Printed    string                 `json:"printed"`
+	PrintedKey string                 `json:"printedKey"` // hex of the model's printedKey of the normalised document
 	Synth   map[string]interface{} `json:"synth"`
 }
 
@@ -566,7 +567,37 @@ func checkNormaliserModel(drv *hx.Driver, step int, q, opn string, doc, nd *ast.
 	if gs != ms {
 		return &divT{Step: step, Kind: "normaliser", Note: "SynthArgs differ from the model of the normaliser", Go: gs, Model: ms}
 	}
+	if keyMode == "printed" && key != unhex(m.PrintedKey) {
+		return &divT{Step: step, Kind: "key", Note: "the cache identifier of the normalised document differs from the model's printedKey", Go: key, Model: unhex(m.PrintedKey)}
+	}
 	return nil
+}
+
+// keyMode / keyShape: which of the model's two key constructions the code under test computes, found out on fixed
+// requests at start-up (no knowledge of any patch: only the bytes of the keys are looked at).
+//   keyMode  "fnv":     normalizeDocument returns the hex FNV-1a-64 hash of the structural fingerprint (model:
+//                       Fp.fingerprint, compared by the [fp] check);
+//            "printed": it returns "doc:" + the printed normalised document (model: printedKey; notes/fixes/D-06k.diff).
+//   keyShape "coded":   cache key = operationName + "\x00" + normKey, and "raw:" + hex FNV-1a-64 of the query for
+//                       requests normalisation does not apply to (model: keyShapeCoded);
+//            "repaired": cache key = Itoa(len(operationName)) + ":" + operationName + normKey, fallback "raw:" + query
+//                       (model: keyShapeRepaired).
+// Anything else the code may do is taken for fnv / coded and shows as a key divergence on the first steps.
+var keyMode, keyShape = "fnv", "coded"
+
+func detectKeyModes() {
+	s := newSchema("A0")
+	if doc, err := parser.Parse(parser.ParseParams{Source: `{ tag }`}); err == nil {
+		if nd, _, key, nerr := graphql.VerifNormalizeDocument(s, doc, ""); nerr == nil && key == "doc:"+fmt.Sprint(printer.Print(nd)) {
+			keyMode = "printed"
+		}
+	}
+	const q = `query A { tag } query B { tag }`
+	c := graphql.NewPlanCache(graphql.PlanCacheOptions{Normalize: true})
+	c.Get(s, q, "")
+	if ks := c.VerifKeys(); len(ks) == 1 && ks[0] == "0:raw:"+q {
+		keyShape = "repaired"
+	}
 }
 
 func mapOrEmpty(m map[string]interface{}) map[string]interface{} {
@@ -804,6 +835,9 @@ func runProbes() map[string]interface{} {
 		{"D-06h' normInvalidNestedLiteral (input object field)", ``, `{ echo(o: {x: true}) }`, nil},
 		{"D-06i normMinusZeroID", ``, `{ echo(id: -0) }`, nil},
 		{"D-06j normUndefinedVariableCaptured", ``, `{ a: echo(s: $__pcv0) b: echo(s: "x") }`, nil},
+		{"D-06k normKeyHashCollision", `{ ...F } fragment F on Query { echo(s: "aajhm2hohpupn") }`, `{ ...F } fragment F on Query { echo(s: "iqrpsqnyk2khb") }`, nil},
+		{"D-06l normKeyIgnoresUnselectedDefinitions", `query A { tag } query B { tag }`, `query A { tag } query B { nope }`, nil},
+		{"D-06l' normKeyIgnoresUnselectedDefinitions (cached error served to a valid request)", `query A { tag } query B { echo(s: 1) }`, `query A { tag } query B { echo(s: "1") }`, nil},
 		{"D-06g normUnextractedString", `{ node(id: 2) { ... on Item { name(prefix: "1,sep=s2") } } }`, `{ node(id: 2) { ... on Item { name(prefix: "1", sep: "2") } } }`, nil},
 	}
 	for _, p := range probes {
@@ -812,6 +846,8 @@ func runProbes() map[string]interface{} {
 		opn := ""
 		if strings.HasPrefix(p.Second, "query Q") {
 			opn = "Q"
+		} else if strings.HasPrefix(p.Second, "query A") {
+			opn = "A"
 		}
 		rec := map[string]interface{}{"first": p.First, "second": p.Second}
 		func() {
@@ -851,7 +887,10 @@ func main() {
 		return
 	}
 	defer drv.Close()
-	run.Res.Rule = "histories of Get / ExecutePlan / Reset / schema replacement (two slots, same shape, new pointer per replacement) over a pool of 6-30 requests drawn as near-miss pairs from eleven families (equal literals under every wrapper shape of one input type, list / input-object literals for resolvers that mutate their arguments, one literal, one alias, argument order/name, operation names, text imitating the key encodings incl. \\x00 and multi-byte, variables + dynamic directives, object/list/interface/union/fragment shapes, rejected requests, formerly normaliser-unsafe shapes D-06b…g), caps {1,2,3,5,default}, MaxQueryBytes {default,40,64} with over-size and at-limit twins, nil cache 1/25; modes raw 60% / Normalize=true 40% (norm-safe, norm-any = with adversarial operation names); non-trivial = the history has a hit and at least one of eviction, schema-guard miss, reset, bypass, re-execution of a stale plan; distinct by the whole history"
+	detectKeyModes()
+	run.Res.Extra["key_mode"] = map[string]string{"normalised_document": keyMode, "key_shape": keyShape}
+	run.Tag("key:" + keyMode + "/" + keyShape)
+	run.Res.Rule = "histories of Get / ExecutePlan / Reset / schema replacement (two slots, same shape, new pointer per replacement) over a pool of 6-30 requests drawn as near-miss pairs from twelve families (definitions the selected operation does not reach, equal literals under every wrapper shape of one input type, list / input-object literals for resolvers that mutate their arguments, one literal, one alias, argument order/name, operation names, text imitating the key encodings incl. \\x00 and multi-byte, variables + dynamic directives, object/list/interface/union/fragment shapes, rejected requests, formerly normaliser-unsafe shapes D-06b…g), caps {1,2,3,5,default}, MaxQueryBytes {default,40,64} with over-size and at-limit twins, nil cache 1/25; modes raw 60% / Normalize=true 40% (norm-safe, norm-any = with adversarial operation names); non-trivial = the history has a hit and at least one of eviction, schema-guard miss, reset, bypass, re-execution of a stale plan; distinct by the whole history"
 	run.Res.Assumptions = []string{
 		"Normalize=true is compared with graphql.Do on every history and every pool (the shapes that exhibited D-06b…g are part of the pool since their repair); mode norm-any differs from norm-safe only by also drawing adversarial operation names",
 		"the response comparison is byte equality of json.Marshal(result) (data and errors with messages, locations, paths) between ExecutePlan(plan from the cache, args ∪ SynthArgs) and graphql.Do on the same schema object",
